@@ -95,6 +95,23 @@ func Load(dir string, goarch string) (*Prog, error) {
 		return nil, fmt.Errorf("load: packages %s and %s not both found under %s", ModPath, CommitPath, dir)
 	}
 	p.All = ssautil.AllFunctions(prog)
+	// generic origins of methods that are only reachable through interfaces are not in the
+	// linker-style closure; the rules analyse origins (instances repeat them), so add them.
+	var addAll func(fn *ssa.Function)
+	addAll = func(fn *ssa.Function) {
+		if fn == nil || p.All[fn] {
+			return
+		}
+		p.All[fn] = true
+		for _, a := range fn.AnonFuncs {
+			addAll(a)
+		}
+	}
+	for fn := range p.All {
+		if o := fn.Origin(); o != nil {
+			addAll(o)
+		}
+	}
 	for fn := range p.All {
 		if fn.Blocks == nil {
 			continue
